@@ -13,7 +13,7 @@
 (*        [st, ret, nlog, meta]        (ret: rendered values [t, hi, lo, s, sh])           *)
 (*      ValueMatches / ClauseV / ClauseS / ClauseM / SoundRun / Sound, used by the trace    *)
 (*      specification spec/trace/EvalTrace.tla which executes the programs.                *)
-EXTENDS Integers, Sequences, FiniteSets
+EXTENDS Integers, Sequences, FiniteSets, SequencesExt
 
 Mx(a, b) == IF a > b THEN a ELSE b
 
@@ -80,11 +80,30 @@ InterpL(t) == IF t = "quick" THEN Pick(AllLeaves, {"nil", "true", "false", "1", 
 InterpVVL(t) == IF t = "quick" THEN Pick(AllLeaves, {"nil", "true", "1", "\"a\"", "x", "x()"}) ELSE InterpL("quick")
 InterpLits == {"a ", "\\n", "\\{"}
 
+\* ---------------------------------------------------------------- families of cases
+\* The language is enumerated as a list of FAMILIES. A family is either an explicit list of expressions (E) or a
+\* PRODUCT described by its factors (operator lists, operand lists) and decoded by position: the large products
+\* (10^4..10^5 members) are never built as sets. Uniform record:
+\*   [sh, d, kind, ops, ops2, A, B, C, E]   kind: "list" | "bin" (ops x A x B) | "left3" / "right3" (ops x ops2 x A x B x C)
+AsSeq(S) == SetToSeq(S)
+ListFam(sh, d, S)            == [sh |-> sh, d |-> d, kind |-> "list", ops |-> <<>>, ops2 |-> <<>>, A |-> <<>>, B |-> <<>>, C |-> <<>>, E |-> AsSeq(S)]
+BinFam(sh, d, O, SA, SB)     == [sh |-> sh, d |-> d, kind |-> "bin", ops |-> AsSeq(O), ops2 |-> <<>>, A |-> AsSeq(SA), B |-> AsSeq(SB), C |-> <<>>, E |-> <<>>]
+TriFam(sh, d, kd, O, SL)     == [sh |-> sh, d |-> d, kind |-> kd, ops |-> AsSeq(O), ops2 |-> AsSeq(O), A |-> AsSeq(SL), B |-> AsSeq(SL), C |-> AsSeq(SL), E |-> <<>>]
+FamSize(f) == CASE f.kind = "list" -> Len(f.E)
+                [] f.kind = "bin"  -> Len(f.ops) * Len(f.A) * Len(f.B)
+                [] OTHER           -> Len(f.ops) * Len(f.ops2) * Len(f.A) * Len(f.B) * Len(f.C)
+\* member k (1-based) of family f, mixed-radix decoding, last factor fastest
+FamAt(f, k) ==
+  LET z == k - 1 IN
+  CASE f.kind = "list" -> f.E[k]
+    [] f.kind = "bin"  -> LET ib == z % Len(f.B) IN LET z1 == z \div Len(f.B) IN LET ia == z1 % Len(f.A) IN LET io == z1 \div Len(f.A) IN
+                          Bin(f.ops[io + 1], f.A[ia + 1], f.B[ib + 1])
+    [] OTHER -> LET ic == z % Len(f.C) IN LET z1 == z \div Len(f.C) IN LET ib == z1 % Len(f.B) IN LET z2 == z1 \div Len(f.B) IN
+                LET ia == z2 % Len(f.A) IN LET z3 == z2 \div Len(f.A) IN LET i2 == z3 % Len(f.ops2) IN LET i1 == z3 \div Len(f.ops2) IN
+                IF f.kind = "left3" THEN Bin(f.ops2[i2 + 1], Par(Bin(f.ops[i1 + 1], f.A[ia + 1], f.B[ib + 1])), f.C[ic + 1])
+                ELSE Bin(f.ops[i1 + 1], f.A[ia + 1], Par(Bin(f.ops2[i2 + 1], f.B[ib + 1], f.C[ic + 1])))
+
 \* ---------------------------------------------------------------- depth 1: one operator over leaves
-D1Arith(t)  == {Bin(op, a, b) : op \in ArithOps, a \in ArithL(t), b \in ArithL(t)}
-D1Cmp(t)    == {Bin(op, a, b) : op \in CmpOps, a \in CmpL(t), b \in CmpL(t)}
-D1Cat(t)    == {Bin("..", a, b) : a \in CatL(t), b \in CatL(t)}
-D1Log(t)    == {Bin(op, a, b) : op \in {"and", "or"}, a \in LogL(t), b \in LogL(t)}
 D1Un        == {Un(op, a) : op \in UnOps, a \in AllLeaves}
 D1Par       == {Par(a) : a \in AllLeaves}
 D1Cast      == {Cast(a) : a \in AllLeaves}
@@ -120,15 +139,12 @@ PoolMore == {
   Par(Op("x:m()", 1, 0, 0)), Par(XK), Par(Cast(X)), Par(Cast(Lf("1"))), Par(IfE(Lf("false"), Lf("1"), VA)), Par(IfE(XC, X, Y)),
   InterpVV(Lf("nil"), Lf("\"a\"")), Interp1(Lf("1")), Lf("`\\n`"), Par(Lf("{}")), Par(Lf("function() end")) }
 Pool(t) == IF t = "quick" THEN PoolQuick ELSE PoolQuick \cup PoolMore
+PoolSmall == {p \in PoolQuick : p.e \in {"(1 + 2)", "(x + 1)", "(\"a\" .. 1)", "(x == nil)", "(x and 1)", "(true and x())", "(x())", "(...)"}}
 \* leaves combined with pool members at depth 2
 D2Leaf(t) == IF t = "quick" THEN Pick(AllLeaves, {"1", "(-0)", "\" 2 \"", "\"a\"", "nil", "x", "x()"})
              ELSE Pick(AllLeaves, {"0", "1", "(-0)", "0.5", "(0/0)", "\" 2 \"", "\"a\"", "\"\"", "nil", "false", "true", "{}", "x", "y", "x()", "..."})
-D2Ops(t)  == IF t = "quick" THEN {"+", "%", "^", "..", "==", "<", "and", "or"} ELSE AllBinOps
-D2Bin(t)  == {Bin(op, p, l) : op \in D2Ops(t), p \in Pool(t), l \in D2Leaf(t)}
-             \cup {Bin(op, l, p) : op \in D2Ops(t), p \in Pool(t), l \in D2Leaf(t)}
-D2BinPP(t) == LET O == IF t = "quick" THEN {"+", "..", "==", "and", "or"} ELSE AllBinOps IN
-              LET Q == IF t = "quick" THEN {p \in PoolQuick : p.e \in {"(1 + 2)", "(x + 1)", "(\"a\" .. 1)", "(x == nil)", "(x and 1)", "(true and x())", "(x())", "(...)"}} ELSE Pool(t) IN
-              {Bin(op, p, q) : op \in O, p \in Q, q \in Q}
+D2Ops(t)  == IF t = "quick" THEN {"+", "^", "..", "==", "<", "and", "or"} ELSE AllBinOps
+D2PPOps(t) == IF t = "quick" THEN {"+", "..", "==", "and", "or"} ELSE AllBinOps
 D2Un(t)   == {Un(op, p) : op \in UnOps, p \in Pool(t)}
 D2Wrap(t) == {Par(p) : p \in Pool(t)} \cup {Cast(p) : p \in Pool(t)}
 D2If(t)   == LET B == IF t = "quick" THEN Pick(AllLeaves, {"1", "x()"}) ELSE Pick(AllLeaves, {"1", "nil", "x()", "..."}) IN
@@ -141,8 +157,6 @@ D2Interp(t) == {Interp1(p) : p \in Pool(t)} \cup {InterpLV("a ", p) : p \in Pool
 \* ---------------------------------------------------------------- depth 3: selected shapes over a small leaf set
 D3Leaf(t) == IF t = "quick" THEN Pick(AllLeaves, {"1", "\" 2 \"", "x"}) ELSE Pick(AllLeaves, {"1", "0.5", "\" 2 \"", "nil", "x", "x()"})
 D3Ops(t)  == IF t = "quick" THEN {"+", "^", "..", "==", "and", "or"} ELSE AllBinOps
-D3Left(t)  == {Bin(o2, Par(Bin(o1, a, b)), c) : o1 \in D3Ops(t), o2 \in D3Ops(t), a \in D3Leaf(t), b \in D3Leaf(t), c \in D3Leaf(t)}
-D3Right(t) == {Bin(o1, a, Par(Bin(o2, b, c))) : o1 \in D3Ops(t), o2 \in D3Ops(t), a \in D3Leaf(t), b \in D3Leaf(t), c \in D3Leaf(t)}
 D3Un(t)    == {Un(u, Par(Bin(o, a, b))) : u \in UnOps, o \in D3Ops(t), a \in D3Leaf(t), b \in D3Leaf(t)}
               \cup {Un(u, Par(Un(w, a))) : u \in UnOps, w \in UnOps, a \in AllLeaves}
 \* and/or chains WITHOUT parentheses (`a and b or c` is `(a and b) or c`, `a or b and c` is `a or (b and c)`)
@@ -151,15 +165,26 @@ ChainL(t)  == IF t = "quick" THEN Pick(AllLeaves, {"nil", "false", "1", "x", "x(
 D3Chain(t) == {Bin(o2, Bin(o1, a, b), c) : o1 \in {"and", "or"}, o2 \in {"and", "or"}, a \in ChainL(t), b \in ChainL(t), c \in ChainL(t)}
 
 \* ---------------------------------------------------------------- all cases
-Tag(S, d, sh) == {[expr |-> r.e, depth |-> d, shape |-> sh, ux |-> r.ux, uy |-> r.uy, uv |-> r.uv] : r \in S}
-AllCases(t) ==
-  Tag(AllLeaves, 0, "leaf")
-  \cup Tag(D1Arith(t), 1, "arith") \cup Tag(D1Cmp(t), 1, "cmp") \cup Tag(D1Cat(t), 1, "concat") \cup Tag(D1Log(t), 1, "andor")
-  \cup Tag(D1Un, 1, "unary") \cup Tag(D1Par, 1, "paren") \cup Tag(D1Cast, 1, "cast")
-  \cup Tag(D1If(t) \cup D1IfElse(t), 1, "ifexp") \cup Tag(D1Interp(t), 1, "interp")
-  \cup Tag(D2Bin(t) \cup D2BinPP(t), 2, "d2bin") \cup Tag(D2Un(t), 2, "d2unary") \cup Tag(D2Wrap(t), 2, "d2wrap")
-  \cup Tag(D2If(t), 2, "d2ifexp") \cup Tag(D2Interp(t), 2, "d2interp")
-  \cup Tag(D3Left(t), 3, "d3left") \cup Tag(D3Right(t), 3, "d3right") \cup Tag(D3Un(t), 3, "d3unary") \cup Tag(D3Chain(t), 3, "d3chain")
+Families(t) == <<
+  ListFam("leaf", 0, AllLeaves),
+  BinFam("arith", 1, ArithOps, ArithL(t), ArithL(t)), BinFam("cmp", 1, CmpOps, CmpL(t), CmpL(t)),
+  BinFam("concat", 1, {".."}, CatL(t), CatL(t)), BinFam("andor", 1, {"and", "or"}, LogL(t), LogL(t)),
+  ListFam("unary", 1, D1Un), ListFam("paren", 1, D1Par), ListFam("cast", 1, D1Cast),
+  ListFam("ifexp", 1, D1If(t) \cup D1IfElse(t)), ListFam("interp", 1, D1Interp(t)),
+  BinFam("d2bin", 2, D2Ops(t), Pool(t), D2Leaf(t)), BinFam("d2bin", 2, D2Ops(t), D2Leaf(t), Pool(t)),
+  BinFam("d2bin", 2, D2PPOps(t), IF t = "quick" THEN PoolSmall ELSE Pool(t), IF t = "quick" THEN PoolSmall ELSE PoolQuick),
+  ListFam("d2unary", 2, D2Un(t)), ListFam("d2wrap", 2, D2Wrap(t)), ListFam("d2ifexp", 2, D2If(t)), ListFam("d2interp", 2, D2Interp(t)),
+  TriFam("d3left", 3, "left3", D3Ops(t), D3Leaf(t)), TriFam("d3right", 3, "right3", D3Ops(t), D3Leaf(t)),
+  ListFam("d3unary", 3, D3Un(t)), ListFam("d3chain", 3, D3Chain(t)) >>
+RECURSIVE SumSizes(_, _)
+SumSizes(F, j) == IF j = 0 THEN 0 ELSE SumSizes(F, j - 1) + FamSize(F[j])
+Total(F) == SumSizes(F, Len(F))
+Offsets(F) == [j \in 1..Len(F) |-> SumSizes(F, j - 1)]
+CaseOf(f, r) == [expr |-> r.e, depth |-> f.d, shape |-> f.sh, ux |-> r.ux, uy |-> r.uy, uv |-> r.uv]
+\* case number g (1..Total(F)); off = Offsets(F)
+CaseAt(F, off, g) == LET j == CHOOSE q \in 1..Len(F) : off[q] < g /\ g <= off[q] + FamSize(F[q]) IN CaseOf(F[j], FamAt(F[j], g - off[j]))
+\* the language of the property at tier t, as a set (never built by the tools: MC_Evaluator walks 1..Total)
+AllCases(t) == LET F == Families(t) IN LET off == Offsets(F) IN {CaseAt(F, off, g) : g \in 1..Total(F)}
 
 \* ============================================================================ 2. concretisation of opaque leaves
 \* the values an opaque identifier may hold (Lua text of the initialiser); logs = number of external-call log
